@@ -124,7 +124,7 @@ def run(tier, seed):
     # (d) schedules: a uid-only and a gid-only chown (a dirs-only and a files-only chmod) of the same tree on two threads -
     # every interleaving of their guards; the outcome must be that of one order (both updates present)
     from props import c04
-    for i, prog in enumerate(("[[29],[30]]", "[[31],[32]]", "[[29],[30,29]]")):
+    for i, prog in enumerate(("[[29],[30]]", "[[31],[32]]", "[[29],[30,29]]", "[[31],[29]]", "[[32],[30]]")):
         c04.sched(out, "chown2-%d" % i, ["--mode", "prog", "--prog", prog], nworkers=1)
     from props import vfsrun
     n, ln = (200, 150) if thorough else (12, 100)
